@@ -97,6 +97,7 @@ type State struct {
 	heap    []*Obj
 	pc      []*Term
 	globals map[*ssa.Global]int
+	natives map[uintptr]int // native pointer -> object id (imports)
 	done    bool
 	retVal  Value // return value of the root function
 }
@@ -128,7 +129,7 @@ func (e *Engine) Close() { e.Solver.Close() }
 
 func (e *Engine) newState() *State {
 	e.nextState++
-	return &State{id: e.nextState, globals: map[*ssa.Global]int{}}
+	return &State{id: e.nextState, globals: map[*ssa.Global]int{}, natives: map[uintptr]int{}}
 }
 
 // Clone forks a state: frames and heap objects are shared copy-on-write.
@@ -141,6 +142,10 @@ func (e *Engine) Clone(st *State) *State {
 	n.globals = make(map[*ssa.Global]int, len(st.globals))
 	for k, v := range st.globals {
 		n.globals[k] = v
+	}
+	n.natives = make(map[uintptr]int, len(st.natives))
+	for k, v := range st.natives {
+		n.natives[k] = v
 	}
 	// the original must also stop owning what is now shared
 	e.nextState++
